@@ -60,6 +60,13 @@ let () =
       | _ -> ()) o;
     (match !fails with a :: b :: c :: _ -> [a; b; c] | l -> l))
 
+(* scoring an information set of a sampled tree aborted *)
+let () =
+  register "cfpanic" (fun i _ ->
+    [Specfail ("c08_scoring_an_information_set_aborts", "tree " ^ i.(1) ^ ", information set " ^ i.(2));
+     Specfail ("c09_regret_vector_aborts", "tree " ^ i.(1) ^ ", information set " ^ i.(2));
+     Specfail ("c10_scoring_an_information_set_aborts", "tree " ^ i.(1) ^ ", information set " ^ i.(2))])
+
 let () =
   register "tree" (fun i o ->
     let d = deck () in
